@@ -199,6 +199,16 @@ def rollover_syncs_first(chk, prog, rule):
         else:
             chk.fail(rule, WS + "rollover", "channel-replaced-on-failed-sync", "the sync channel is replaced although the old segment's sync failed", rb)
     elif not tx:
-        chk.ok(rule, "rollover keeps the channel (no replacement): C01 R1.4 decides whether that is sound", rb.where())
+        # the channel is kept: then rollover must not publish the NEW segment's (small) offset on it - a watch keeps only the latest value, so a
+        # waiter of the old segment that has not been polled yet never sees the offset it waits for
+        from .c01 import WATCH_SENDS
+        rev_ = Ev(prog, rb)
+        sends = [t for bi, t in rb.calls() if (rb.callee_decl(t) or "") in WATCH_SENDS and
+                 any(isinstance(x, tuple) and x and x[0] == "field" and x[2] == "sync_tx" for x in walk(rev_.operand(t["args"][0], (bi, "T"))))]
+        if sends:
+            chk.fail(rule, WS + "rollover", "channel-reused-for-new-segment", "rollover publishes the new segment's offset on the old sync channel: appends still waiting for an offset "
+                     "of the old segment only ever see smaller values and never complete", rb, sends[0]["line"])
+        else:
+            chk.ok(rule, "rollover keeps the channel and publishes nothing new on it: C01 R1.4 decides whether that is sound", rb.where())
     else:
         chk.fail(rule, WS + "rollover", "channel-replaced-before-sync", "the sync channel is replaced before the old segment was synced: appends waiting on the old channel are never woken", rb)
